@@ -234,11 +234,14 @@ class StateTriggerDecorator(TriggerDecorator, ExpressionDecorator, AutoKwargsDec
             self.last_new_vars = State.notify_var_get(self.state_trig_ident, {})
             trig_ok = await self._is_trig_ok()
 
-            if self.in_wait_until_function and trig_ok and self.state_check_now is True:
-                self.state_hold_false = None
-
             if self.state_check_now and self.has_expression():
+                # the definition-time trigger is not subject to state_hold_false; afterwards the
+                # state_hold_false logic waits for the next False value as documented
+                saved_hold_false = self.state_hold_false
+                if trig_ok:
+                    self.state_hold_false = None
                 await self._check_new_state(trig_ok)
+                self.state_hold_false = saved_hold_false
             else:
                 if not trig_ok and self.state_hold_false is not None:
                     self.false_entered_at = loop.time()
